@@ -614,6 +614,31 @@ func c20throttleConc(c *c20ctx, trailing bool) {
 	}
 }
 
+// crossCheckOrders repeats a finished stateful exploration depth first and compares the visited sets: a
+// sound state key gives the same set in every order. A difference means that something which decides the
+// future is missing from the key (a value held in a local across a scheduling point): machinery defect.
+func crossCheckOrders(st *wStats, name string, e *vrt.Explorer, body func(), depthFirst bool) {
+	if !e.Complete {
+		return
+	}
+	e2 := &vrt.Explorer{Horizon: e.Horizon, Quick: e.Quick, Budget: e.Budget, Deadline: e.Deadline, Stateful: true, DepthFirst: depthFirst, Reversed: !depthFirst, Check: func(*vrt.Exec) {}}
+	e2.Explore(body)
+	st.Execs += e2.Execs
+	st.Steps += e2.Steps
+	switch {
+	case !e2.Complete:
+		st.Extra["stateful_order_crosscheck_not_completed"]++
+	case e2.States != e.States || e2.StateHash != e.StateHash:
+		// the key misses something this code keeps in a local across a scheduling point: the explored
+		// executions and their verdicts stand, the claim "every reachable state was visited" does not
+		st.Extra["stateful_order_crosscheck_disagrees"]++
+		st.Incomplete++
+		st.Samples = append(st.Samples, fmt.Sprintf("%s: NOT a fixpoint -- the visited state set depends on the exploration order (breadth first %d states, second order %d): the state key is not closed for this code", name, e.States, e2.States))
+	default:
+		st.Extra["stateful_order_crosschecks_agree"]++
+	}
+}
+
 // ---------------------------------------------------------------- throttle: the reachable state graph
 
 // c20throttleGraph explores the throttle as a protocol instead of through bounded scripts: a driver
@@ -759,6 +784,9 @@ func c20throttleGraph(c *c20ctx, trailing bool) {
 		return
 	}
 	e.Explore(body)
+	if !stop {
+		crossCheckOrders(c.st, name, e, body, true)
+	}
 	c.st.Execs += e.Execs
 	c.st.Steps += e.Steps
 	c.st.Extra["throttle_graph_states"] += e.States
@@ -913,6 +941,9 @@ func c20debounceGraph(c *c20ctx) {
 		return
 	}
 	e.Explore(body)
+	if !stop {
+		crossCheckOrders(c.st, name, e, body, true)
+	}
 	c.st.Execs += e.Execs
 	c.st.Steps += e.Steps
 	c.st.Extra["debounce_graph_states"] += e.States
